@@ -206,7 +206,10 @@ package server
 //@ props C17
 //@ func (*BgpServer).processRTCMembership$2
 //@   claims at-call
-//@   at-call ^peer.updateRoutes(filtered...) requires path.IsWithdraw && !called(processOutgoingPaths) ==> (forall k int :: 0 <= k && k < len(filtered) ==> !peer.interestedIn(filtered[k]))
+// (the list handed to the peer in the withdraw branch is built by these appends alone)
+//@   at-call ^append(withdrawn, p) requires !peer.interestedIn(p)
+//@   at-call ^peer.updateRoutes(withdrawn...) requires path.IsWithdraw
+//@   at-call ^sendfsmOutgoingMsg(peer, withdrawn) requires called(updateRoutes)
 
 // =============================================================================================
 // C12 - graceful restart: the per-call parts (DESIGN.md 4 C12; every "exactly when <timer/event order>" clause
